@@ -40,7 +40,15 @@ Progs == <<
                                          [t |-> "raw", s |-> <<123, 123>>]>>,
   (* 11 nested loops with else *) <<[t |-> "for", tag |-> "for", var |-> X, coll |-> R13, lim |-> Lit(IntV(2)),
                                       body |-> <<[t |-> "for", tag |-> "for", var |-> <<121>>, coll |-> Var(<<101>>), body |-> <<T(<<33>>)>>, else |-> <<T(<<69>>)>>]>>]>>,
-  (* 12 empty output *) <<[t |-> "assign", name |-> X, e |-> Lit(IntV(1))]>>
+  (* 12 empty output *) <<[t |-> "assign", name |-> X, e |-> Lit(IntV(1))]>>,
+  (* 13 a loop body left by break: its pending write is flushed later *)
+  <<T(<<104, 32>>), [t |-> "for", tag |-> "for", var |-> X, coll |-> R13,
+                     body |-> <<T(<<105>>), Ob(Var(X)), [t |-> "break"], T(<<110>>)>>], T(<<116>>)>>,
+  (* 14 continue under a condition, loop last in the template *)
+  <<[t |-> "for", tag |-> "for", var |-> X, coll |-> R13,
+     body |-> <<Ob(Var(X)), [t |-> "if", branches |-> <<[c |-> [t |-> "cmp", op |-> "<", a |-> Var(X), b |-> Lit(IntV(3))], body |-> <<T(<<99>>), [t |-> "continue"]>>]>>], T(<<33>>)>>]>>,
+  (* 15 tablerow left by continue *)
+  <<[t |-> "for", tag |-> "tablerow", var |-> X, coll |-> R13, body |-> <<Ob(Var(X)), [t |-> "continue"], T(<<110>>)>>]>>
 >>
 Env2 == << <<X, Str(<<88>>)>>, <<<<108>>, Arr(<<IntV(1), Str(<<50>>), Nil, IntV(3)>>)>>, <<<<101>>, Arr(<<>>)>> >>
 Cx == [Cx0 EXCEPT !.pol = [Intended EXCEPT !.flushErr = FlushPolicy]]
